@@ -106,8 +106,10 @@ static bool chunk_info_equals(void *user, const void *k, const void *c)
 	sqfs_block_t *it;
 	int ret;
 
-	if (key->size != cmp->size || key->hash != cmp->hash)
+	if (key->size != cmp->size || key->hash != cmp->hash ||
+	    key->flags != cmp->flags) {
 		return false;
+	}
 
 	if (proc->uncmp == NULL || proc->file == NULL)
 		return true;
